@@ -62,6 +62,7 @@ class AEval(dtable.Eval):
         self.builtins = builtins or {}  # method name -> python callable(receiver value, [argument values]) -> value
         self.path_builtins = {}         # function path (as written, or its last two segments) -> callable([argument values])
         self.totokens = None            # callable(value) -> token text or None, for values interpolated in quote!
+        self.cfg = None                 # callable(flat text of a cfg!(..) predicate) -> bool
         self.depth = 0
 
     # ---------------------------------------------------------------- values as tokens
@@ -142,6 +143,8 @@ class AEval(dtable.Eval):
                 return ("fnref", p.split("::")[-1])
             if p.startswith("str::") or p.startswith("String::"):
                 return ("method-fn", p.split("::")[-1])
+            if "::" in p and p.split("::")[-1] in self.builtins:
+                return ("builtin-fn", p.split("::")[-1])
             raise Unknown("free variable " + p)
         if k == "Lit":
             if e.get("text") in ("true", "false"):
@@ -357,6 +360,8 @@ class AEval(dtable.Eval):
         if p == "vec" and "args" in e:
             return L(*[self.ex(a, env) for a in e["args"]])
         if p == "cfg":
+            if self.cfg is not None:
+                return B(bool(self.cfg(_flatp(tok_text(e["tokens"])) if "tokens" in e else _flatp(show(e)))))
             raise Unknown("cfg!")
         raise Unknown("macro " + p)
 
@@ -376,6 +381,8 @@ class AEval(dtable.Eval):
                 return r.value
         if f[0] == "fnref":
             return self.call_fn(f[1], args)
+        if f[0] == "builtin-fn":
+            return self.builtins[f[1]](args[0] if args else None, list(args[1:]))
         if f[0] == "ident-fn":
             if f[1] in ("Some", "Ok", "Err"):
                 return C(f[1], *args)
@@ -580,6 +587,8 @@ class AEval(dtable.Eval):
                 return L(*[T(I(i), x) for i, x in enumerate(xs)])
             if m == "rev":
                 return L(*reversed(xs))
+            if m == "unzip" and all(x[0] == "tuple" and len(x[1]) == 2 for x in xs):
+                return T(L(*[x[1][0] for x in xs]), L(*[x[1][1] for x in xs]))
             if m == "skip" and args[0][0] == "int":
                 return L(*xs[args[0][1]:])
             if m == "take" and args[0][0] == "int":
